@@ -19,8 +19,10 @@ from .c11 import fix_leaf, meaningful, jsonable
 from .c15 import cast_doc
 
 PROP = "C13"
-THEOREMS = []
-FACT_LEMMAS = []
+THEOREMS = ["C13_rule", "C13_rule_behaviour", "C13_paths_of_c12_roundtrip", "C13_cast_blocks", "C13_cast_names_back", "C13_schema",
+            "C13_modified_path_is_refused"]
+DEPENDS = ['Py.v', 'Lang.v', 'Defs.v', 'Cond.v', 'Dsl.v', 'Check.v', 'DocSem.v', 'Inst.v', 'Gen/TablesGen.v', 'Gen/CallablesGen.v', 'Gen/SpecGen.v', 'Path.v', 'PathSpec.v', 'Cast.v', 'Str.v', 'SpecDefs.v', 'RuleDefs.v', 'Rule.v', 'Spec.v', 'SpecIO.v', 'Eq.v', 'FromStr.v', 'RunSpec.v', 'SpecSpell.v', 'RuleTerms.v', 'Proofs/Tie.v', 'Proofs/PyFacts.v', 'Proofs/C01Proof.v', 'Proofs/C02Proof.v', 'Proofs/C03Proof.v', 'Proofs/C04Proof.v', 'Proofs/RuleProof.v', 'Proofs/C09Proof.v', 'Proofs/C10Proof.v', 'Proofs/C11Proof.v', 'Proofs/C14Proof.v', 'Proofs/C12Proof.v', 'Proofs/C13Proof.v', 'Proofs/C13Glue.v', 'Proofs/SchemaSpecProof.v', 'Properties/C13.v']
+FACT_LEMMAS = ["C13Proof cast-table facts (closed computations on the generated tables)"]
 ASSUMPTIONS = ["Layer P models CPython's operators (pysem)", "json text is produced and parsed by the real json module"]
 
 
